@@ -155,6 +155,14 @@ def main(ctx):
     # (M) model checking of extracted graphs
     keys = list(graphs_by_src.keys())
 
+    import hashlib as _hl
+
+    def slice_key(sg):
+        d = {k: v for k, v in sg.items() if k not in ("names", "items")}
+        return _hl.sha1(json.dumps(d, sort_keys=True).encode()).hexdigest()
+
+    seen_slices = set()
+
     def report_model(rel, what, r, gpath):
         if r.violated in PROPERTY_INVARIANTS or r.violated == "Deadlock":
             ctx.violation("model:%s:%s" % (rel, r.violated),
@@ -180,13 +188,16 @@ def main(ctx):
             if real < 3:
                 continue
             sg = graphs.slice_graph(gj, c)
+            if slice_key(sg) in seen_slices:   # the same sub-graph again (another option set / source)
+                continue
+            seen_slices.add(slice_key(sg))
             sp = ctx.path("slices", "%s_%d.json" % ((key[0] + "".join("+" + f for f in key[1])).replace("/", "_"), n))
             json.dump(sg, open(sp, "w"))
             sl_jobs.append((key[0], name, real, sp))
     # biggest first, bounded number
     sl_jobs.sort(key=lambda j: -j[2])
-    fixture_jobs = [j for j in sl_jobs if "/minifonts/" not in j[0]][: (6 if quick else 40)]
-    sl_jobs = fixture_jobs + [j for j in sl_jobs if "/minifonts/" in j[0]]
+    fixture_jobs = [j for j in sl_jobs if "/minifonts/" not in j[0]][: (4 if quick else 40)]
+    sl_jobs = fixture_jobs + [j for j in sl_jobs if "/minifonts/" in j[0]][: (6 if quick else 60)]
     common.log("exhaustive model checking of %d graph slices" % len(sl_jobs))
 
     def bfs(job):
@@ -215,11 +226,16 @@ def main(ctx):
         gj, gpath = graphs_by_src[key]
         big = [s_ for s_ in graphs.slices(gj, lazy_max) if s_[1] > slice_max]
         for n, (c, real, name) in enumerate(big[: (2 if quick else 5)]):
+            sg = graphs.slice_graph(gj, c)
+            if slice_key(sg) in seen_slices:
+                continue
+            seen_slices.add(slice_key(sg))
             sp = ctx.path("lazy", "%s_%d.json" % ((key[0] + "".join("+" + f for f in key[1])).replace("/", "_"), n))
-            json.dump(graphs.slice_graph(gj, c), open(sp, "w"))
+            json.dump(sg, open(sp, "w"))
             lz_jobs.append((key[0], name, real, sp))
-    lz_jobs.sort(key=lambda j: ("/minifonts/" not in j[0], -j[2]))
-    lz_jobs = lz_jobs[: (14 if quick else 80)]
+    # generated sources first (small graphs that exercise the dynamic parts), smaller slices first
+    lz_jobs.sort(key=lambda j: ("/minifonts/" not in j[0], "own-notdef" not in j[0], j[2]))
+    lz_jobs = lz_jobs[: (7 if quick else 80)]
     common.log("lazy-send model checking of %d larger slices" % len(lz_jobs))
 
     def lazy(job):
